@@ -120,12 +120,35 @@ static U16 pgEncode(const orc::Board& b, const orc::Mv& m) {
     return (U16)(orc::X(to) | (orc::Y(to) << 3) | (orc::X(from) << 6) | (orc::Y(from) << 9) | (promo << 12));
 }
 
+/** Polyglot key computed from the format description with the published random table (the engine's copy of that table is data, the mapping of
+ *  pieces / castling rights / en-passant file / side to table rows is re-derived here): kind = 2 * {pawn 0, knight 1, bishop 2, rook 3, queen 4, king 5}
+ *  + (white ? 1 : 0); castling 768 + {white short, white long, black short, black long}; en passant 772 + file; white to move 780. */
+static U64 pgKey(const orc::Board& b) {
+    static const int kindOfType[7] = {-1, 5, 4, 3, 2, 1, 0};   // oracle types: 1 K 2 Q 3 R 4 B 5 N 6 P
+    U64 key = 0;
+    for (int sq = 0; sq < 64; sq++) { int pc = b.sq[sq]; if (!pc) continue; int kind = 2 * kindOfType[orc::typeOf(pc)] + (orc::isWhiteP(pc) ? 1 : 0); key ^= PolyglotBook::hashRandoms[64 * kind + sq]; }
+    if (b.castle & 2) key ^= PolyglotBook::hashRandoms[768 + 0];
+    if (b.castle & 1) key ^= PolyglotBook::hashRandoms[768 + 1];
+    if (b.castle & 8) key ^= PolyglotBook::hashRandoms[768 + 2];
+    if (b.castle & 4) key ^= PolyglotBook::hashRandoms[768 + 3];
+    if (b.ep >= 0) key ^= PolyglotBook::hashRandoms[772 + orc::X(b.ep)];
+    if (b.wtm) key ^= PolyglotBook::hashRandoms[780];
+    return key;
+}
+
 /** Every legal move of every position of a list, stored alone under the position's key in an otherwise well-formed book: the probe must return
  *  exactly that move (decode errors for particular move geometries: castling look-alikes, promotions, en passant, corner moves). */
 static void legalMoves(Book& book, MemFile& mf) {
     std::vector<std::string> fens = POS;
     for (const char* f : {"k7/8/8/8/8/8/5K2/4Q2r w - - 0 1", "4q2R/5k2/8/8/8/8/8/K7 b - - 0 1", "k7/8/8/8/8/8/5K2/4R3 w - - 0 1", "4r3/5k2/8/8/8/8/4P3/R3K2R b KQ - 0 1",
                           "r3k2r/4p3/8/8/8/8/8/4RK2 w kq - 0 1", "4k3/8/8/8/8/8/8/R3K2R w KQ - 0 1", "r3k2r/8/8/8/8/8/8/4K3 b kq - 0 1", "8/2P1k3/8/8/8/8/4K1p1/5N1R b - - 0 1"}) fens.push_back(f);
+    // every subset of the castling rights of positions in which both sides have king and rooks at home (keys with a single right per side)
+    for (const char* side : {"w", "b"}) for (int r = 0; r < 16; r++) {
+        std::string c; if (r & 1) c += 'K'; if (r & 2) c += 'Q'; if (r & 4) c += 'k'; if (r & 8) c += 'q'; if (c.empty()) c = "-";
+        fens.push_back(std::string("r3k2r/pppq1ppp/2npbn2/2b1p3/2B1P3/2NPBN2/PPPQ1PPP/R3K2R ") + side + " " + c + " - 0 1");
+    }
+    // anchor of the independent key: the published key of the initial position
+    { orc::Board sp = orc::startPos(); if (pgKey(sp) != 0x463b96181691fc9cULL) { fprintf(stderr, "legalmoves: independent polyglot key of the initial position is %016llx, the format description says 463b96181691fc9c\n", (unsigned long long)pgKey(sp)); exit(2); } }
     auto seeds = uni::readSeeds("corpus/seeds.fen");
     uni::Part all{0, 1};
     uni::UPERFT(seeds, 1, all, [&](const orc::Board& b, unsigned long long, int) { fens.push_back(orc::toFEN(b)); });
@@ -134,7 +157,8 @@ static void legalMoves(Book& book, MemFile& mf) {
         if (!W->mine(id++)) continue;
         Position pos; try { pos = TextIO::readFEN(fen); } catch (const ChessParseError& e) { fprintf(stderr, "legalmoves: position list contains an invalid FEN: %s (%s)\n", fen.c_str(), e.what()); exit(2); }
         orc::Board b = br::fromTexel(pos);
-        U64 key = PolyglotBook::getHashKey(pos);
+        U64 key = pgKey(b);      // the book is written with the independent key: a wrong key on the engine's side makes the stored move unreachable
+        if (key != PolyglotBook::getHashKey(pos)) R.violation("polyglot-key-differs-from-format", fen, "{\"kind\":\"input\",\"fen\":\"" + jsonEsc(fen) + "\"}");
         W->crumb("legalmoves " + fen);
         for (auto& m : orc::legalMoves(b)) {
             std::string file = entryBytes(key - 7, 0x0123, 3) + entryBytes(key, pgEncode(b, m), 5) + entryBytes(key + 7, 0x0456, 2);
@@ -143,7 +167,7 @@ static void legalMoves(Book& book, MemFile& mf) {
             std::set<int> got = probeAll(book, pos, b, "single stored move " + orc::uci(m), hex(file));
             if (!(got.size() == 1 && *got.begin() == m.code()))
                 R.violation(got.size() == 1 && *got.begin() == -1 ? "stored-move-never-returned" : "wellformed-returns-unstored-move",
-                            fen + " stored " + orc::uci(m) + " got " + br::setStr(got), "{\"kind\":\"fault\",\"what\":\"single stored move\",\"fen\":\"" + jsonEsc(fen) + "\",\"file\":\"" + hex(file) + "\"}");
+                            fen + " stored " + orc::uci(m) + " got " + [&]() { std::string t; for (int c : got) { if (!t.empty()) t += ' '; t += c < 0 ? std::string("none") : br::codeStr(c); } return t; }(), "{\"kind\":\"fault\",\"what\":\"single stored move\",\"fen\":\"" + jsonEsc(fen) + "\",\"file\":\"" + hex(file) + "\"}");
         }
     }
 }
